@@ -89,6 +89,6 @@ Example C21_partial_nonvacuous :
   /\ is_in_directories (s "p/sub/a.txt") [s "p/sub"] = true
   /\ is_hidden (s "p/.hid/x.txt") = false /\ is_hidden (s "p/d/.x.txt") = true.
 Proof.
-  repeat match goal with |- _ /\ _ => split end; try (vm_compute; reflexivity).
+  cbv zeta. repeat match goal with |- _ /\ _ => split end; try (vm_compute; reflexivity).
   exact (proj1 compiles_sweep).
 Qed.
